@@ -12,7 +12,7 @@ export CARGO_TARGET_DIR=$WT/target
 run_demo() {
   # returns 0 if the demonstration passes
   if ls $SRC/demo/*.sh >/dev/null 2>&1; then
-    bash $SRC/demo/*.sh > $WT/demo.log 2>&1; return $?
+    bash $SRC/demo/*.sh $WT > $WT/demo.log 2>&1; return $?
   fi
   rc=0
   for f in $SRC/demo/seed*_*.rs; do
